@@ -10,6 +10,10 @@ written in the block, kids in textual order. At the top level of `root` two more
 kids (multi-step authoring): `(reenter)` — the `with rule:` block is closed and `with rule:` is opened again —
 and `(here)` — the base rule's `Add` statements are written at this point (default: first).
 
+Two rule variables: `(prog (dom d…) (domy e…) (root …))`; a block's condition is then `(h e…)` (on `x`) or
+`(r (x y)…)` (the pairs for which `in_(x, y.r)` holds; evaluating it with `y` unbound enumerates `domy`); classes
+numbered ≥ 1000 are constructed from `x` and `y`, their rows read `class:x.y`.
+
 Output: `model=` builder + evaluator as the code is today (`Quirks.today`), `model_fixed=` all three quirks off,
 `model_q…=` every other quirk setting (a repair of one defect must still correspond), `spec=` the ripple-down
 rules interpreter `fire` over the domain, `trig=` the findings whose decidable trigger the program satisfies.
@@ -24,21 +28,35 @@ open KrroodVerif.Rdr
 
 def nats (xs : List Sexp) : Option (List Nat) := xs.mapM Sexp.asNat?
 
+/-- payload row of a block: its `Block` and, for a condition relating `x` and `y`, the pairs for which it holds -/
+abbrev Row := Block × Option (List (Nat × Nat))
+
+def pairs (xs : List Sexp) : Option (List (Nat × Nat)) :=
+  xs.mapM fun s => match s with
+    | .list [a, b] => do pure ((← a.asNat?), (← b.asNat?))
+    | _ => none
+
+/-- `(h e…)` — condition on `x`; `(r (x y)…)` — condition relating `x` and `y` -/
+def parseCond : Sexp → Option (List Nat × Option (List (Nat × Nat)))
+  | .list (.atom "h" :: hs) => do pure ((← nats hs), none)
+  | .list (.atom "r" :: ps) => do pure ([], some (← pairs ps))
+  | _ => none
+
 def parseKind : String → Option Kind
   | "ref" => some .ref | "alt" => some .alt | "next" => some .next | _ => none
 
 -- parse a block; blocks are numbered in textual (pre-)order; returns the skeleton and the payload rows
 mutual
-partial def parseBlock (items : List Sexp) (acc : Array Block) : Option (Prog × Array Block) :=
+partial def parseBlock (items : List Sexp) (acc : Array Row) : Option (Prog × Array Row) :=
   match items with
-  | .list (.atom "h" :: hs) :: .list (.atom "c" :: cs) :: kids => do
-    let h ← nats hs
+  | cnd :: .list (.atom "c" :: cs) :: kids => do
+    let (h, rel) ← parseCond cnd
     let c ← nats cs
     let b := acc.size
-    let (k, acc) ← parseKids kids (acc.push { cond := h, concl := c })
+    let (k, acc) ← parseKids kids (acc.push ({ cond := h, concl := c }, rel))
     pure (.mk b k, acc)
   | _ => none
-partial def parseKids (items : List Sexp) (acc : Array Block) : Option (Kids × Array Block) :=
+partial def parseKids (items : List Sexp) (acc : Array Row) : Option (Kids × Array Row) :=
   match items with
   | [] => some (.nil, acc)
   | .list (.atom k :: body) :: rest => do
@@ -50,7 +68,7 @@ partial def parseKids (items : List Sexp) (acc : Array Block) : Option (Kids × 
 end
 
 /-- the top level of `root`: kids, `(reenter)`, `(here)`; blocks numbered in textual order from 1 -/
-partial def parseItems (items : List Sexp) (acc : Array Block) : Option (List Item × Array Block) :=
+partial def parseItems (items : List Sexp) (acc : Array Row) : Option (List Item × Array Row) :=
   match items with
   | [] => some ([], acc)
   | .list [.atom "reenter"] :: rest => do
@@ -66,12 +84,12 @@ partial def parseItems (items : List Sexp) (acc : Array Block) : Option (List It
     pure (Item.kid kd p :: r, acc)
   | _ => none
 
-def parseRoot (items : List Sexp) : Option (Authored × Array Block) :=
+def parseRoot (items : List Sexp) : Option (Authored × Array Row) :=
   match items with
-  | .list (.atom "h" :: hs) :: .list (.atom "c" :: cs) :: rest => do
-    let h ← nats hs
+  | cnd :: .list (.atom "c" :: cs) :: rest => do
+    let (h, rel) ← parseCond cnd
     let c ← nats cs
-    let (its, acc) ← parseItems rest #[{ cond := h, concl := c }]
+    let (its, acc) ← parseItems rest #[({ cond := h, concl := c }, rel)]
     let nAdd := (its.filter fun i => match i with | .add => true | _ => false).length
     if nAdd == 0 then pure (⟨0, Item.add :: its⟩, acc)
     else if nAdd == 1 then pure (⟨0, its⟩, acc)
@@ -92,37 +110,102 @@ def showObs : Obs → String
   | .cyclic => "exc:RecursionError"
   | .mismatch => "internal:evalT-vs-evalK"
 
+def showBnd (b : Bnd) : String :=
+  match b.2 with
+  | some y => s!"{b.1}.{y}"
+  | none => toString b.1
+
+/-- one result over two variables: every candidate class with the constructor arguments it would show -/
+def showRow2 (r : List Nat × Bnd) : String :=
+  "|".intercalate (sortStrings (r.1.map fun c => pad c ++ ":" ++ showBnd (rowOf c r.2).2))
+
+def showRows2 (rs : List (List Nat × Bnd)) : String :=
+  showList (dedupStrings (sortStrings (rs.map showRow2)))
+
+def showObs2 : Obs2 → String
+  | .ok rows => showRows2 rows
+  | .raised => "exc:construction"
+  | .cyclic => "exc:RecursionError"
+  | .mismatch => "internal:evalT-vs-evalK"
+
+/-- a one-variable observation as a two-variable one (for the cross-check) -/
+def liftObs : Obs → Obs2
+  | .ok rows => .ok (rows.map fun r => (r.1, (r.2, none)))
+  | .raised => .raised
+  | .cyclic => .cyclic
+  | .mismatch => .mismatch
+
 def dedupName : Dedup → String
   | .byBinding => "b" | .byConclusion => "c" | .off => "o"
 
 /-- the quirk setting of the code as it is today (every defect still open) -/
 def current : Quirks := Quirks.today
+/-- two variables: a failed left side's bindings (a `y` only it bound) reach the right side of a Next. Not a
+finding of its own: it needs a refinement below a next_rule, and today those are never linked (F-C08-2), so the
+code cannot show it; the flag exists so that a repair of F-C08-2 still corresponds (`Prog.trigLeakScope` says
+where it would matter; every such program also triggers F-C08-2). -/
+def currentLeak : Bool := true
+
+/-- one case: `domY = none` — the payload never mentions `y` -/
+def runCase (dom : List Nat) (domY : Option (List Nat)) (a : Authored) (rows : Array Row) : String :=
+  let pay := Payload.ofList (rows.toList.map (·.1))
+  let rels := rows.toList.map (·.2)
+  let twoVar := rels.any Option.isSome
+  let r2 := Rel2.ofList (domY.getD []) rels
+  -- for the trigger of F-C08-3: the elements of `x` for which a block's condition can hold
+  let payX : Payload := Payload.ofList (rows.toList.map fun (b, rel) =>
+    match rel with
+    | none => b
+    | some R => { b with cond := (R.filter fun xy => (domY.getD []).contains xy.2).map (·.1) })
+  let p := a.toProg
+  -- the one-variable definitions (the ones the theorems are about) whenever the payload allows; the two-variable
+  -- ones otherwise, and as a cross-check
+  let obs := fun (q : Quirks) (leak : Bool) =>
+    let o2 := showObs2 (modelA2 q leak pay r2 a dom)
+    if twoVar then o2
+    else
+      let m1 := modelA q pay a dom
+      if showObs2 (liftObs m1) == o2 then showObs m1 else "internal:one-vs-two-variables"
+  let specStr :=
+    let s2 := showRows2 ((spec2 pay r2 p dom).map fun (c, b) => ([c], b))
+    if twoVar then s2
+    else
+      let s1 := showRows ((spec pay p dom).map fun (c, x) => ([c], x))
+      if s1 == s2 then s1 else "internal:one-vs-two-variables"
+  let others : List Quirks :=
+    [true, false].flatMap fun c => [true, false].flatMap fun r =>
+      [Dedup.byBinding, .byConclusion, .off].filterMap fun d =>
+        let q : Quirks := ⟨c, r, d⟩
+        if q = current || q = Quirks.fixed then none else some q
+  let name := fun (q : Quirks) (leak : Bool) =>
+    s!"model_q{if q.climbOnce then 1 else 0}{if q.refNoRelink then 1 else 0}{dedupName q.dedup}" ++
+      (if leak == currentLeak then "" else if leak then "l" else "n")
+  let alt := (others.map fun q => name q currentLeak ++ "=" ++ obs q currentLeak) ++
+    (if twoVar then
+      ([current, Quirks.fixed] ++ others).filterMap fun q =>
+        if q = Quirks.fixed then some (name q currentLeak ++ "=" ++ obs q currentLeak)
+        else some (name q (!currentLeak) ++ "=" ++ obs q (!currentLeak))
+     else [])
+  let trig :=
+    (if p.trigClimb then ["F-C08-1"] else []) ++
+    (if p.trigRef true then ["F-C08-2"] else []) ++
+    (if p.trigNextScope payX dom || (twoVar && p.trigWitness pay r2 false) then ["F-C08-3"] else [])
+  "\t".intercalate
+    ([ "model=" ++ obs current currentLeak,
+       "model_fixed=" ++ obs Quirks.fixed false,
+       "spec=" ++ specStr,
+       "trig=" ++ ",".intercalate trig,
+       "unamb=" ++ toString p.unambiguous ] ++ alt)
 
 def run (s : Sexp) : String :=
   match s with
   | .list [.atom "prog", .list (.atom "dom" :: ds), .list (.atom "root" :: body)] =>
     match nats ds, parseRoot body with
-    | some dom, some (a, blocks) =>
-      let pay := Payload.ofList blocks.toList
-      let p := a.toProg
-      let others : List Quirks :=
-        [true, false].flatMap fun c => [true, false].flatMap fun r =>
-          [Dedup.byBinding, .byConclusion, .off].filterMap fun d =>
-            let q : Quirks := ⟨c, r, d⟩
-            if q = current || q = Quirks.fixed then none else some q
-      let alt := others.map fun q =>
-        s!"model_q{if q.climbOnce then 1 else 0}{if q.refNoRelink then 1 else 0}{dedupName q.dedup}=" ++
-          showObs (modelA q pay a dom)
-      let trig :=
-        (if p.trigClimb then ["F-C08-1"] else []) ++
-        (if p.trigRef true then ["F-C08-2"] else []) ++
-        (if p.trigNextScope pay dom then ["F-C08-3"] else [])
-      "\t".intercalate
-        ([ "model=" ++ showObs (modelA current pay a dom),
-           "model_fixed=" ++ showObs (modelA Quirks.fixed pay a dom),
-           "spec=" ++ showRows ((spec pay p dom).map fun (c, x) => ([c], x)),
-           "trig=" ++ ",".intercalate trig,
-           "unamb=" ++ toString p.unambiguous ] ++ alt)
+    | some dom, some (a, rows) => runCase dom none a rows
     | _, _ => "error=bad-case"
+  | .list [.atom "prog", .list (.atom "dom" :: ds), .list (.atom "domy" :: es), .list (.atom "root" :: body)] =>
+    match nats ds, nats es, parseRoot body with
+    | some dom, some domY, some (a, rows) => runCase dom (some domY) a rows
+    | _, _, _ => "error=bad-case"
   | _ => "error=bad-case"
 end KrroodVerif.Drive.C08
